@@ -92,6 +92,22 @@ pub mod proofs {
         let mut n = 0; for _ in f.iter() { n += 1; } assert!(n == 3);
     } }
 
+    // the stock graph nodes, called directly (graph TRAVERSAL sits on petgraph and is not covered): Sum, SumBuffers, Pass and a
+    // boxed node process one block each, with two inputs of two buffers and two output buffers, without touching the allocator
+    noalloc! { #[kani::unwind(70)] fn c07_stock_graph_nodes() {
+        use dasp_graph::{node::{Pass, Sum, SumBuffers}, Buffer, BoxedNode, Input, Node};
+        let ia = [Buffer::SILENT, Buffer::SILENT]; let ib = [Buffer::SILENT, Buffer::SILENT];
+        let inputs = [Input::verif_new(&ia), Input::verif_new(&ib)];
+        let mut out = [Buffer::SILENT, Buffer::SILENT];
+        let mut boxed = BoxedNode::new(Sum);
+        steady();
+        Sum.process(&inputs, &mut out);
+        SumBuffers.process(&inputs, &mut out);
+        Pass.process(&inputs, &mut out);
+        boxed.process(&inputs, &mut out);
+        unsafe { STEADY = false; }
+    } }
+
     noalloc! { #[kani::unwind(6)] fn c07_rectifiers_rms_envelope() {
         use dasp_envelope::{Detector, detect::Peak};
         let mut rms = dasp_rms::Rms::new(rb::Fixed::from([[0.0f32; 2]; 3]));
